@@ -73,13 +73,23 @@ def scan_forbidden(paths):
 
 
 def lean_sources_of(pid):
-    """All .lean files the property module can depend on (conservative: whole library)."""
-    out = []
-    for root, _, files in os.walk(os.path.join(LEAN, "RTA")):
-        for f in files:
-            if f.endswith(".lean"):
-                out.append(os.path.join(root, f))
-    return out
+    """the .lean files the property module transitively imports (within the RTA library)"""
+    seen, todo = set(), [f"RTA.Props.{pid}"]
+    while todo:
+        m = todo.pop()
+        if m in seen:
+            continue
+        path = os.path.join(LEAN, *m.split(".")) + ".lean"
+        if not os.path.exists(path):
+            continue
+        seen.add(m)
+        for line in open(path):
+            line = line.strip()
+            if line.startswith("import RTA.") or line.startswith("import Driver."):
+                todo.append(line.split()[1])
+            elif line and not line.startswith("import") and not line.startswith("--") and not line.startswith("/-"):
+                break
+    return [os.path.join(LEAN, *m.split(".")) + ".lean" for m in sorted(seen)]
 
 
 def axiom_audit(pid, theorems):
